@@ -635,7 +635,8 @@ pub fn exec_op(
                     // the documented way to initialise a new script on a long-lived instance
                     koto.exports_mut().clear();
                 }
-                let r = koto.compile_and_run(source.unwrap());
+                let args = koto::CompileArgs::new(source.unwrap()).script_path(script_path.as_str());
+                let r = koto.compile_and_run(args);
                 render(koto, r)
             }
             Op::MakeGen { func } => {
